@@ -27,6 +27,11 @@ for d in sorted((VERIF / "seeded").glob("C*_*")):
     finally:
         subprocess.run("git -C /repo checkout -- .", shell=True, check=True)
         subprocess.run("rm -rf /tmp/seed_ev", shell=True)
+    if meta.get("expected") == "silent":
+        # a seed that a later repair of the repository made harmless (see meta.json): the checks must now stay silent on it
+        print(f"{meta['id']}: {'SILENT as expected (obsolete after ' + meta.get('obsolete_after_fix', '?') + ')' if not hit else 'REPORTED although the change no longer breaks the property'}")
+        bad += 1 if hit else 0
+        continue
     print(f"{meta['id']}: {'reported by ' + ','.join(hit) if hit else 'NOT REPORTED'}")
     bad += 0 if hit else 1
 (VERIF / "seeded" / "now.json").write_text(json.dumps(now, indent=1, sort_keys=True) + "\n")
@@ -39,8 +44,8 @@ if "--readme" in sys.argv:
     rows = [head, "|---|---|---|---|---|"]
     for d in sorted((VERIF / "seeded").glob("C*_*")):
         meta = json.load(open(d / "meta.json"))
-        rnd = {"a": 1, "b": 1, "c": 2, "d": 2, "e": 3, "f": 3, "g": 4, "h": 4, "i": 5, "j": 5}[meta["id"][-1]]
+        rnd = {"a": 1, "b": 1, "c": 2, "d": 2, "e": 3, "f": 3, "g": 4, "h": 4, "i": 5, "j": 5, "k": 6, "l": 6}[meta["id"][-1]]
         first = meta.get("first_run_reported", meta.get("caught"))
-        rows.append(f"| {meta['id']} | {meta['property']} | {rnd} | {'yes' if first else 'no'} | {', '.join(now[meta['id']]['rules']) or 'not reported (' + meta.get('not_reported_reason', '?') + ')'} |")
+        rows.append(f"| {meta['id']} | {meta['property']} | {rnd} | {'yes' if first else 'no'} | {', '.join(now[meta['id']]['rules']) or 'not reported (' + meta.get('not_reported_reason', 'obsolete after fix ' + meta['obsolete_after_fix'] if meta.get('obsolete_after_fix') else '?') + ')'} |")
     readme.write_text(text[:i] + "\n".join(rows) + text[j:])
 sys.exit(1 if bad else 0)
